@@ -45,7 +45,7 @@ TSent == /\ Is("sent") /\ owed = 0 /\ Step /\ UNCHANGED <<owed, odd>>
             ELSE Send(Cur.b, Cur.xfer)
 
 TSentFinal == /\ Is("sentfinal") /\ owed = 0 /\ Step /\ UNCHANGED <<owed, odd>>
-              /\ SendFinal(Cur.b)
+              /\ IF Cur.drop THEN DropFinal(Cur.b) /\ UNCHANGED odd ELSE SendFinal(Cur.b)
 
 TPiece == /\ Is("piece") /\ owed = 0 /\ Step /\ UNCHANGED owed
           /\ Deliver(Cur.n)
